@@ -307,7 +307,20 @@ pub fn run_conv(op: &str, a: &[Arg], st: &mut Stats) -> Option<Out> {
             let d = arg_digest(x)?;
             let s = serde_json::to_string(&d).ok()?;
             let back: Option<Digest> = serde_json::from_str(&s).ok();
-            Out::ok(format!("ok:{}", fmt_str(&s))).with_oracle(back == Some(d), "serde_json round trip of a digest")
+            // every entry point of the deserializer must agree: borrowed input (from_str / from_slice), a reader (no
+            // borrowing possible), a Value tree, an escaped string (forces an owned string), and inside containers
+            let via_slice: Option<Digest> = serde_json::from_slice(s.as_bytes()).ok();
+            let via_reader: Option<Digest> = serde_json::from_reader(std::io::Cursor::new(s.as_bytes().to_vec())).ok();
+            let via_value: Option<Digest> = serde_json::to_value(d).ok().and_then(|v| serde_json::from_value(v).ok());
+            let escaped = format!("\"\\u00{:02x}{}", s.as_bytes()[1], &s[2..]);
+            let via_escaped: Option<Digest> = serde_json::from_str(&escaped).ok();
+            let in_vec: Option<Vec<Digest>> = serde_json::from_reader(std::io::Cursor::new(format!("[{s},{s}]").into_bytes())).ok();
+            let in_map: Option<std::collections::BTreeMap<String, Digest>> = serde_json::from_str(&format!("{{\"k\":{s}}}")).ok();
+            let all = via_slice == Some(d) && via_reader == Some(d) && via_value == Some(d) && via_escaped == Some(d)
+                && in_vec == Some(vec![d, d]) && in_map.map(|m| m.get("k").copied()) == Some(Some(d));
+            Out::ok(format!("ok:{}", fmt_str(&s)))
+                .with_oracle(back == Some(d), "serde_json round trip of a digest")
+                .with_oracle(all, "serde_json: from_slice / from_reader / from_value / escaped string / inside Vec or map do not all give the digest back")
         }
         ("json_d_de", [x]) => {
             let s = arg_str(x)?;
@@ -336,7 +349,11 @@ pub fn run_conv(op: &str, a: &[Arg], st: &mut Stats) -> Option<Out> {
             let e = BFieldElement::new(v.u64()?);
             let s = serde_json::to_string(&e).ok()?;
             let back: Option<BFieldElement> = serde_json::from_str(&s).ok();
-            Out::ok(format!("ok:{}", fmt_str(&s))).with_oracle(back == Some(e), "serde_json round trip of an element")
+            let via_reader: Option<BFieldElement> = serde_json::from_reader(std::io::Cursor::new(s.as_bytes().to_vec())).ok();
+            let via_value: Option<BFieldElement> = serde_json::to_value(e).ok().and_then(|v| serde_json::from_value(v).ok());
+            Out::ok(format!("ok:{}", fmt_str(&s)))
+                .with_oracle(back == Some(e), "serde_json round trip of an element")
+                .with_oracle(via_reader == Some(e) && via_value == Some(e), "serde_json: from_reader / from_value do not give the element back")
         }
         ("json_bfe_de", [x]) => {
             let ds: Vec<u32> = x.u64s()?.into_iter().map(|v| u32::try_from(v).ok()).collect::<Option<_>>()?;
